@@ -38,6 +38,10 @@ pub struct Case {
     pub docs: Vec<u8>,
     pub pools: Pools,
     pub steps: Vec<Step>,
+    /// every step goes through a store actor (`SyncHandle`: open / insert_remote / drop_replica / import ...); the actor is
+    /// stopped after the step and the store it hands back is observed directly
+    #[serde(default)]
+    pub via_actor: bool,
 }
 
 /// Synthetic namespace ids that are neighbours in byte order.
@@ -95,14 +99,17 @@ impl Prop for C16 {
             3 => prop::sample::select(vec![vec![2u8, 0, 1], vec![0, 1], vec![3, 4], vec![6, 5], vec![5, 7, 6], vec![3, 0], vec![3, 4, 5, 0]]),
             1 => vec(0u8..8, 2..=4),
         ];
-        (prop::bool::weighted(0.25), prop::bool::weighted(0.4), docs, pools(5), vec(step, 1..=max))
-            .prop_map(|(file, raw, docs, pools, steps)| Case { file, raw, docs, pools, steps })
+        (prop::bool::weighted(0.25), prop::bool::weighted(0.4), docs, pools(5), vec(step, 1..=max), prop::bool::weighted(0.3))
+            .prop_map(|(file, raw, docs, pools, steps, via_actor)| Case { file, raw, docs, pools, steps, via_actor: via_actor && !raw })
             .boxed()
     }
 
     fn check(ctx: &mut Ctx, c: &Case) -> Outcome {
         let mut o = Outcome::default();
         o.class(if c.raw { "raw-rows" } else { "validated" });
+        if c.via_actor && !c.raw {
+            o.class("via-actor");
+        }
         let r = check(ctx, c, &mut o);
         verif::set_clock(None);
         if let Err(e) = r {
@@ -180,6 +187,17 @@ fn check(ctx: &mut Ctx, c: &Case, o: &mut Outcome) -> R<()> {
     let mut removed_interesting: Vec<bool> = vec![false; ids.len()];
     for (n, s) in c.steps.iter().enumerate() {
         let mut target: Option<usize> = None;
+        if c.via_actor && !c.raw && !matches!(s, Step::Reopen) {
+            // the same step through a store actor; afterwards the actor is stopped and hands the store back
+            let store = std::mem::replace(&mut st.store, iroh_docs::store::Store::memory());
+            let h = crate::act::spawn(store);
+            let r: R<()> = ctx.rt.block_on(actor_step(&h, n, s, &ids, &slots, &authors, &keys, &mut exists, &mut expected, &mut removed_interesting, &mut target, kind, o));
+            st.store = ctx.rt.block_on(async { es(h.shutdown().await) })?;
+            r?;
+            if o.failed() {
+                break;
+            }
+        } else {
         match s {
             Step::Write(d, e) => {
                 let d = *d as usize % ids.len();
@@ -273,6 +291,10 @@ fn check(ctx: &mut Ctx, c: &Case, o: &mut Outcome) -> R<()> {
                 st = st.reopen()?;
             }
         }
+        }
+        if o.failed() {
+            break;
+        }
         // every document: only the target may have changed
         let mut all_hashes: BTreeSet<[u8; 32]> = BTreeSet::new();
         for j in 0..ids.len() {
@@ -309,5 +331,101 @@ fn check(ctx: &mut Ctx, c: &Case, o: &mut Outcome) -> R<()> {
         }
     }
     st.cleanup();
+    Ok(())
+}
+
+/// One step of the history through a store actor (validated paths only).
+#[allow(clippy::too_many_arguments)]
+async fn actor_step(
+    h: &iroh_docs::actor::SyncHandle,
+    n: usize,
+    s: &Step,
+    ids: &[NamespaceId],
+    slots: &[u8],
+    authors: &[u8],
+    keys: &[Vec<u8>],
+    exists: &mut [bool],
+    expected: &mut [DocDump],
+    removed_interesting: &mut [bool],
+    target: &mut Option<usize>,
+    kind: &'static str,
+    o: &mut Outcome,
+) -> R<()> {
+    use iroh_docs::actor::OpenOpts;
+    match s {
+        Step::Write(d, e) => {
+            let d = *d as usize % ids.len();
+            *target = Some(d);
+            if exists[d] {
+                let se = sign(namespace(slots[d]), &to_espec(e, authors, keys));
+                es(h.open(ids[d], OpenOpts::default().sync()).await)?;
+                let _ = h.insert_remote(ids[d], se, [1u8; 32], ContentStatus::Missing).await;
+                let _ = es(h.close(ids[d]).await)?;
+            }
+        }
+        Step::Settings(d, p) => {
+            let d = *d as usize % ids.len();
+            *target = Some(d);
+            let r1 = h.register_useful_peer(ids[d], [*p + 1; 32]).await;
+            let r2 = h.set_download_policy(ids[d], DownloadPolicy::NothingExcept(vec![FilterKind::Exact(vec![*p].into())])).await;
+            if (r1.is_ok() || r2.is_ok()) != exists[d] {
+                o.fail("C16/settings-on-removed", format!("step {n} (actor): settings on a document that {} succeeded={:?}/{:?}", if exists[d] { "exists" } else { "was removed" }, r1.is_ok(), r2.is_ok()));
+            }
+        }
+        Step::Remove(d) => {
+            let d = *d as usize % ids.len();
+            *target = Some(d);
+            let had_data = !expected[d].entries.is_empty();
+            if let Err(e) = h.drop_replica(ids[d]).await {
+                o.fail("C16/remove-closed-failed", format!("step {n} (actor): dropping a closed document failed: {e:?}"));
+                return Ok(());
+            }
+            if exists[d] && had_data {
+                let others_with_data = (0..ids.len()).filter(|j| *j != d && !expected[*j].entries.is_empty()).count();
+                let nb = (0..ids.len()).any(|j| j != d && exists[j] && neighbours(ids[d].as_bytes(), ids[j].as_bytes()));
+                if others_with_data >= 1 && (nb || ids[d].as_bytes()[31] == 0xFF) {
+                    removed_interesting[d] = true;
+                    o.class("removed-neighbour-or-ff");
+                }
+                o.class("removed-with-data");
+            }
+            exists[d] = false;
+            expected[d] = empty_doc(None);
+            if h.open(ids[d], OpenOpts::default()).await.is_ok() {
+                o.fail("C16/removed-still-opens", format!("step {n} (actor): a removed document can still be opened"));
+            }
+        }
+        Step::RemoveWhileOpen(d) => {
+            let d = *d as usize % ids.len();
+            if exists[d] {
+                // two handles: drop_replica releases one and must then be refused because the other is still open
+                es(h.open(ids[d], OpenOpts::default()).await)?;
+                es(h.open(ids[d], OpenOpts::default().sync()).await)?;
+                let res = h.drop_replica(ids[d]).await;
+                if res.is_ok() {
+                    o.fail("C16/removed-while-open", format!("step {n} (actor): drop_replica succeeded although a handle of the document was still open"));
+                    return Ok(());
+                }
+                let _ = h.close(ids[d]).await;
+                let _ = h.close(ids[d]).await;
+                o.class("refused-while-open");
+                o.class("refused-while-open(actor, second handle)");
+            }
+        }
+        Step::Recreate(d) => {
+            let d = *d as usize % ids.len();
+            *target = Some(d);
+            if !exists[d] {
+                es(h.import_namespace(Capability::Write(namespace(slots[d]).clone())).await)?;
+                exists[d] = true;
+                expected[d] = empty_doc(Some(kind));
+                if removed_interesting[d] {
+                    o.nontrivial = true;
+                    o.class("recreated-after-interesting-removal");
+                }
+            }
+        }
+        Step::Reopen => {}
+    }
     Ok(())
 }
